@@ -174,6 +174,11 @@ def tiny_configs():
         for ns in (2, 3):
             for er in (False, True):
                 out.append(dict(n_features=3, n_samples=ns, cardinality=2, ensure_rep=er, structure=s))
+    # non-default bounds together with a structure that leaves columns before, between and after its entries to the default generator
+    for s in ([[1, [100, 101]]], [[0, [100]]], [[2, [100, 101]]], [[[0, 1], [100]]]):
+        for er in (False, True):
+            out.append(dict(n_features=4, n_samples=2, cardinality=2, ensure_rep=er, structure=s, low=7, high=9))
+            out.append(dict(n_features=4, n_samples=2, cardinality=2, ensure_rep=er, structure=s, low=7, high=9, random_values=True))
     return out
 
 
@@ -210,7 +215,7 @@ def _controlled_job(job):
 # ---------------- real generator grid -------------------------------------------------------------------
 
 def grid_configs():
-    structs = [None, [[1, 3]], [[0, [100, 101, 102]]], [[[0, 2], [50, 60]]], [[1, [[7, 8, 9], [0.1, 0.1, 0.8]]]]]
+    structs = [None, [[1, 3]], [[0, [100, 101, 102]]], [[[0, 2], [50, 60]]], [[1, [[7, 8, 9], [0.1, 0.1, 0.8]]]], [[1, [200, 201]]]]
     for nf in (1, 2, 3, 4):
         for ns in (1, 2, 5, 50):
             for card in (1, 2, 3, 6):
@@ -220,6 +225,8 @@ def grid_configs():
                             if s is not None and nf < 3:
                                 continue
                             yield dict(n_features=nf, n_samples=ns, cardinality=card, k=k, ensure_rep=er, structure=s)
+                            if si in (0, 5) and k == 10:
+                                yield dict(n_features=nf, n_samples=ns, cardinality=card, k=k, ensure_rep=er, structure=s, low=20, high=40)
     for card in (1, 3, 6):
         for ns in (2, 6, 50):
             for er in (False, True):
@@ -300,7 +307,7 @@ def _naive_job(seed):
     # the data_generator task writes exactly (sample, target)
     d = scratch_dir('c19')
     try:
-        for nf, rows in ((31, 3), (33, 6)):
+        for nf, rows in ((31, 3), (33, 6)) + (((31, 70000),) if seed % 4 == 0 else ()):   # one run longer than any plausible chunk size
             np.random.seed(seed)
             sample, target = generator_naive.generate_random_matrix(nf, rows)
             args = harness.make_args(task='data_generator', num_synthetic_features=nf, num_synthetic_rows=rows, generator_type='naive', output_synthetic_df_name='synth')
